@@ -628,7 +628,12 @@ fn race_case(r: &mut Rng) -> Option<(String, String, serde_json::Value, bool)> {
   use futures::StreamExt;
   use std::sync::mpsc::channel;
   let conv = [Conv::Future, Conv::Stream, Conv::Status][r.below(3)];
-  let n_items = r.below(4);
+  // one stream case in six is a long one: hundreds of items are ready back to back
+  let long = conv == Conv::Stream && r.chance(1, 6);
+  let n_items = if long { [130usize, 300, 700][r.below(3)] } else { r.below(4) };
+  // a thread may hold a stale unpark token (an earlier block_on on the same thread, a
+  // spurious wake-up): half of the waiters are given one before they wait
+  let stale_token = r.chance(1, 2);
   let error = r.chance(1, 3);
   let mut subj = SubjectThreads::<V, E>::default();
   if r.chance(1, 4) {
@@ -645,6 +650,9 @@ fn race_case(r: &mut Rng) -> Option<(String, String, serde_json::Value, bool)> {
       name = "to_future";
       let fut = subj.clone().to_future();
       std::thread::spawn(move || {
+        if stale_token {
+          std::thread::current().unpark();
+        }
         let res = block_on(fut);
         let _ = tx.send(match res {
           Ok(Ok(v)) => format!("value:{}", v.int()),
@@ -684,6 +692,9 @@ fn race_case(r: &mut Rng) -> Option<(String, String, serde_json::Value, bool)> {
       name = "to_stream";
       let st = subj.clone().to_stream();
       std::thread::spawn(move || {
+        if stale_token {
+          std::thread::current().unpark();
+        }
         let all: Vec<Result<V, E>> = block_on(st.collect::<Vec<_>>());
         let _ = tx.send(
           all
@@ -702,6 +713,9 @@ fn race_case(r: &mut Rng) -> Option<(String, String, serde_json::Value, bool)> {
       let (o, status) = subj.clone().complete_status();
       o.actual_subscribe(Probe::new(1, &Log::new()));
       std::thread::spawn(move || {
+        if stale_token {
+          std::thread::current().unpark();
+        }
         CompleteStatus::wait_for_end(status.clone());
         let _ = tx.send(format!("closed={} completed={} error={}", status.is_closed(), status.is_completed(), status.error_occur()));
       });
@@ -710,7 +724,9 @@ fn race_case(r: &mut Rng) -> Option<(String, String, serde_json::Value, bool)> {
   jitter(r);
   for v in &items {
     subj.next(v.clone());
-    jitter(r);
+    if !long {
+      jitter(r);
+    }
   }
   if error {
     subj.clone().error(7)
